@@ -126,6 +126,9 @@ func ModAlphabet(m *big.Int, extra []Val, seed int64, nSeeded int, mont bool) []
 			s.add("stored-limbs = "+b.Label, new(big.Int).Mul(b.V, rinv))
 			s.add("R * "+b.Label, new(big.Int).Mul(b.V, r256))
 		}
+		for _, b := range append(ReductionSteered(m), ModulusLimbPatterns(m)...) {
+			s.add("stored-limbs = "+b.Label, new(big.Int).Mul(b.V, rinv))
+		}
 	}
 	return s.out
 }
